@@ -132,17 +132,27 @@ def python_route(env, rec, prog, rng, seedinfo):
     fills = {n: f"py{rng.randrange(1000)}" for n in names}
     page = [["comp", cname, {}, ["fills", [["fill", ["lit", n], [["text", t]], None, None] for n, t in fills.items()]] if fills else None]]
     prog2 = {"classes": prog["classes"], "page": page, "page_ctx": {}}
+    # slot functions that use what they are handed: the slot's data and its default content (SlotRef)
+    page3 = [["comp", cname, {}, ["fills", [["fill", ["lit", n], [["text", t], ["defaultref", "g"], ["dataref", "d", "k"]], "d", "g"] for n, t in fills.items()]] if fills else None]]
+    prog3 = {"classes": prog["classes"], "page": page3, "page_ctx": {}}
     for mode in ("django", "isolated"):
-        ref = e1run.reference(prog2, mode)
-        if ref[0] == "unspec":
+        ref2 = e1run.reference(prog2, mode)
+        if ref2[0] == "unspec":
             return
+        ref3 = e1run.reference(prog3, mode) if fills else ("unspec", "")
         built = env.build(prog2)
         try:
-            for form in ("str", "func"):
+            for form in ("str", "func", "func-using-data-and-default"):
+                ref = ref2
                 if form == "str":
                     slots = {n: mark_safe(f"[{t}]") for n, t in fills.items()}
-                else:
+                elif form == "func":
                     slots = {n: (lambda ctx, data, ref_, t=t: mark_safe(f"[{t}]")) for n, t in fills.items()}
+                else:
+                    if ref3[0] == "unspec":
+                        continue
+                    ref = ref3
+                    slots = {n: (lambda ctx, data, ref_, t=t: mark_safe(f"[{t}]" + str(ref_) + f"[d.k={data.get('k', '')}]")) for n, t in fills.items()}
                 env.inst_count = 0
                 env.inst_limit = 20 * len(ref[-1].instances) + 50
                 try:
@@ -158,7 +168,7 @@ def python_route(env, rec, prog, rng, seedinfo):
                 rec.observe("python-route-renders")
                 prob = compare(ref, got)
                 if prob:
-                    rec.violation("python-route-" + prob[0], {"program": prog2, "mode": mode, "variant": "python-" + form, "slots": fills, "seed": seedinfo}, {"what": prob[1][:600]})
+                    rec.violation("python-route-" + prob[0], {"program": prog3 if ref is ref3 else prog2, "mode": mode, "variant": "python-" + form, "slots": fills, "seed": seedinfo}, {"what": prob[1][:600]})
                     return
         finally:
             built.dispose()
@@ -208,7 +218,12 @@ def replay(case, rec):
         ref = e1run.reference(prog, case["mode"])
         built = env.build(prog)
         cname = next(iter(prog["classes"]))
-        slots = {n: mark_safe(f"[{t}]") for n, t in case["slots"].items()}
+        if case["variant"] == "python-func-using-data-and-default":
+            slots = {n: (lambda ctx, data, ref_, t=t: mark_safe(f"[{t}]" + str(ref_) + f"[d.k={data.get('k', '')}]")) for n, t in case["slots"].items()}
+        elif case["variant"] == "python-func":
+            slots = {n: (lambda ctx, data, ref_, t=t: mark_safe(f"[{t}]")) for n, t in case["slots"].items()}
+        else:
+            slots = {n: mark_safe(f"[{t}]") for n, t in case["slots"].items()}
         with env.override_settings(COMPONENTS={"context_behavior": case["mode"], "autodiscover": False}):
             try:
                 raw = built.classes[cname].render(slots=slots, render_dependencies=False)
